@@ -29,4 +29,12 @@ MUTANTS = [
      "                yield empty_line\n            empty_lines_skipped = []\n            line_before_empty_lines_list = next_line",
      "                yield empty_line\n            line_before_empty_lines_list = next_line",
      '_strip_trailing_space : loop#1 invariant[preserved]'),
+    # --- strip (default)
+    ('t14c05-s-keeps-leading-space', 'C05', _STRIP,
+     "    non_empty_line = non_empty_line.lstrip()\n\n    for next_line in lines:",
+     "    for next_line in lines:",
+     '_strip_space : '),
+    ('t14c05-s-keeps-space-of-last-line', 'C05', _STRIP,
+     "    yield non_empty_line.rstrip()", "    yield non_empty_line",
+     '_strip_space : ensures[yields the lines of the text without the white space at its beginning and end]'),
 ]
